@@ -939,7 +939,7 @@ class Frame:
             base = {ast.NotEq: '==', ast.Eq: '==', ast.In: 'in', ast.NotIn: 'in', ast.Is: 'is', ast.IsNot: 'is',
                     ast.Lt: '<', ast.LtE: '<=', ast.Gt: '>', ast.GtE: '>='}[type(op)]
             if base == 'in' and isinstance(a, Opaque) and isinstance(b, (tuple, list, frozenset)) and 0 < len(b) <= 8 and \
-                    all(isinstance(x, (str, bytes, int)) for x in b):
+                    not getattr(b, 'unknown', False) and all(isinstance(x, (str, bytes, int, Opaque)) for x in b):
                 # membership in a small constant collection = disjunction of equalities (same atoms as `x == a or x == b`)
                 r = any(self.compare(ast.Eq(), a, x, node) for x in (sorted(b, key=repr) if isinstance(b, frozenset) else b))
                 return (not r) if neg else r
